@@ -433,6 +433,9 @@ func (e *Engine) chanClose(ch *Chan) {
 }
 
 func (e *Engine) selectInstr(fr *frame, instr *ssa.Select) value {
+	if e.traceCalls && instr.Blocking {
+		e.traceLog = append(e.traceLog, traceEvent{fn: "op:blocking-select in " + fr.fn.String()})
+	}
 	var cases []selCase
 	for _, st := range instr.States {
 		ch, _ := fr.get(st.Chan).(*Chan)
